@@ -73,6 +73,69 @@ pub fn run_bin(bin: &str, inv: &Inv) -> Result<Outcome, String> {
     })
 }
 
+
+pub enum CliErr {
+    /// the binary misbehaved (non-zero exit, output not UTF-8, wrote to stdout besides --output)
+    Bad(String),
+    /// the environment failed (cannot spawn, cannot write scratch files): inconclusive
+    Env(String),
+}
+
+/// `clean` as the user runs it: the real binary on a file / stdin, result from stdout / another
+/// file / the input file itself, targets by flags / config file / both.
+pub fn clean_via_cli(bin: &str, dir: &str, tag: &str, text: &str, sp: &Sp, cfg: &Cfg, variant: u64) -> Result<String, CliErr> {
+    let c = Case {
+        text: text.to_string(),
+        default_spelling: *sp == Sp::new("<!-- <", "> -->", "time-limited", "removal-marker"),
+        sp: sp.clone(),
+        cfg: cfg.clone(),
+        passthrough: false,
+    };
+    let in_path = format!("{dir}/in-{tag}.src");
+    std::fs::write(&in_path, text).map_err(|e| CliErr::Env(format!("cannot write input file: {e}")))?;
+    let via_stdin = variant % 2 == 1;
+    let output_kind = (variant / 2) % 3;
+    let targets_via = ((variant / 6) % 3) as usize;
+    let mut args = option_args(&c, targets_via, dir, tag, variant / 18).map_err(CliErr::Env)?;
+    let mut result_file = None;
+    if !via_stdin {
+        args.push(format!("--filename={in_path}"));
+    }
+    match output_kind {
+        1 => {
+            let f = format!("{dir}/out-{tag}.txt");
+            let _ = std::fs::write(&f, "stale content of an earlier, longer report\n".repeat(3));
+            args.push(format!("--output={f}"));
+            result_file = Some(f);
+        }
+        2 if !via_stdin => {
+            args.push(format!("--output={in_path}"));
+            result_file = Some(in_path.clone());
+        }
+        _ => {}
+    }
+    let inv = Inv {
+        args: args.clone(),
+        stdin: if via_stdin { Some(text.to_string()) } else { None },
+        env: vec![("TZ".into(), TZS[((variant / 54) % 4) as usize].map(|s| s.to_string()))],
+        result_file: result_file.clone(),
+        valgrind: false,
+    };
+    let o = run_bin(bin, &inv).map_err(CliErr::Env)?;
+    let _ = std::fs::remove_file(&in_path);
+    if let Some(f) = &result_file {
+        let _ = std::fs::remove_file(f);
+    }
+    let _ = std::fs::remove_file(format!("{dir}/targets-{tag}.txt"));
+    if o.code != Some(0) {
+        return Err(CliErr::Bad(format!("binary exited with {:?} (args {:?}): {}", o.code, args, trunc(&o.stderr, 300))));
+    }
+    if result_file.is_some() && !o.stdout.is_empty() {
+        return Err(CliErr::Bad("--output given but something was written to standard output as well".into()));
+    }
+    String::from_utf8(o.result).map_err(|_| CliErr::Bad(format!("result is not valid UTF-8 (args {:?})", args)))
+}
+
 #[derive(Clone, Copy, Debug, PartialEq)]
 pub enum Mode {
     Clean,
@@ -131,7 +194,7 @@ fn target_file_text(names: &[String], style: u64) -> String {
     s
 }
 
-fn option_args(c: &Case, targets_via: usize, dir: &str, tag: &str, style: u64) -> Result<Vec<String>, String> {
+pub fn option_args(c: &Case, targets_via: usize, dir: &str, tag: &str, style: u64) -> Result<Vec<String>, String> {
     let mut a: Vec<String> = vec![];
     if !c.default_spelling {
         a.push(format!("--delimiter-start={}", c.sp.ds));
